@@ -58,7 +58,8 @@ def canon_rel(path, root):
         return "."
     if not p.startswith(root + os.sep):
         return None
-    return _TMP_RE.sub("._TMP_", p[len(root) + 1:])
+    from harness import faultfs as _ff
+    return _ff.canon_name(p[len(root) + 1:])
 
 
 def _errname(e):
@@ -131,7 +132,8 @@ class _Actor:
         if kind == "stat":
             return "T"
         if kind == "listdir":
-            return sorted(_TMP_RE.sub("._TMP_", n if isinstance(n, str) else n.name) for n in val)
+            from harness import faultfs as _ff
+            return sorted(_ff.canon_name(n if isinstance(n, str) else n.name) for n in val)
         if kind == "read":
             return val  # bytes
         return "ok"
